@@ -12,10 +12,35 @@
      structural := the boolean on the wire (did every Validate method of the parts pass)
      calc_doc := the observed result of the document's own calculation
    ops:  validate  <structural 0|1> <dig: ( ) | ( xalg xval )> x<doc> <table>
-         calculate <dig> x<doc> <calculated: ( ) | ( x<doc'> )> <table>  *)
+         calculate <dig> x<doc> <calculated: ( ) | ( x<doc'> )> <table>
+         realcanon x<json text of a document>
+             the text (json.Marshal of the parsed document on the Go side) is read by C07's reader,
+             turned into a `content` (Digest/Link.of_json) and canonicalised by real_canon - the
+             canonicaliser of the theorems `..._real` of Props/C08.v:
+             -> ( ok x<real_canon d> <in_domain d> <wfb d> )   the value is good (Link.jgood)
+              | ( outside )                                     it is not (a string that is not clean UTF-8,
+                                                                a float failing C07's float premise)
+              | ( err <kind> )                                  the text is not one JSON value  *)
 From Coq Require Import ZArith List String Bool.
-From Verif Require Import Base.Wire Digest.Envelope.
+From Verif Require Import Base.Wire Digest.Envelope Json.Json Json.C14n Digest.Content Digest.Link.
 Import ListNotations.
+
+Definition c08_kind_name (k : errkind) : string :=
+  match k with
+  | ESyntax => "syntax" | EIncomplete => "incomplete" | ETrailing => "trailing" | EKey => "key"
+  | EUtf8 => "utf8" | ERange => "range" | EFuel => "fuel"
+  end.
+
+Definition run_realcanon (t : bytes) : list V :=
+  match parse t with
+  | Ok v =>
+    if jgood v then
+      let d := of_json v in
+      [VL [VS (bs "ok"); VS (real_canon d); VB (in_domain d); VB (wfb d)]]
+    else [VL [VS (bs "outside")]]
+  | Err k => [verr (c08_kind_name k)]
+  | Panic => [verr "panic"]
+  end.
 
 Definition H_tbl (tbl : list V) (b : bytes) : bytes :=
   match find (fun p => eqb_bytes (vs_ (nth 0 (vl p) (VS []))) b) tbl with
@@ -53,6 +78,7 @@ Definition run_c08 (args : list V) : list V :=
       | Some e1 => [VS (bs "ok"); dig_out (e_dig e1); VS (e_doc e1)]
       | None => [verr "calculation"]
       end
+    else if String.eqb op "realcanon" then run_realcanon (vs_ a1)
     else [verr "unknown-c08-op"]
   | [] => [verr "unknown-c08-op"]
   end.
